@@ -1,6 +1,6 @@
 (* C20 — shift and diff are exact translations; rolling_mean returns exactly the points at which a window edge meets a
-   step point, each with the mean of f over its window. (The linear-interpolation claim is decided by the
-   correspondence check + oracle only.) *)
+   step point, each with the mean of f over its window; linear interpolation between consecutive points reproduces the
+   rolling mean of a function defined throughout the windows. *)
 From Coq Require Import List QArith Qcanon.
 Require Import SC.Base.Ord SC.Base.Val SC.Base.Series SC.Base.QcOrd SC.Model.Repr SC.Model.Ops SC.Model.Sampling SC.Model.Stats.
 Require Import SC.Spec.Den SC.Proofs.MapKeysFacts.
@@ -50,3 +50,21 @@ Proof.
   rewrite (slice_stat_unfold SMean cl IvRight a b sl E). reflexivity.
 Qed.
 Print Assumptions the_window_mean_is_the_mean_of_the_restriction.
+
+(* ---- linear interpolation between consecutive sample points reproduces the rolling mean: with no other sample point (knot)
+   strictly between x1 and x2 and f (restricted to `where`) defined throughout the windows, the window mean at every x in
+   [x1, x2] is the linear interpolation of the means at x1 and x2. Rests on the window integral W (additive, constant where
+   no step point is crossed) of Proofs/InterpFacts.v. *)
+Require Import SC.Proofs.InterpFacts.
+
+Theorem linear_interpolation_reproduces_the_rolling_mean :
+  forall (cl : stairsQ) (l r x1 x2 x : Qc),
+    wf cl -> ltb l r = true -> ltb x1 x2 = true -> leb x1 x = true -> leb x x2 = true ->
+    (forall k, In k (rolling_knots cl l r) -> ltb x1 k = true -> ltb k x2 = true -> False) ->
+    (forall t, leb (x1 + l) t = true -> ltb t (x2 + r) = true -> lim LimRight cl t <> None) ->
+    exists y1 y2,
+      slice_stat SMean cl IvRight (x1 + l, x1 + r) = Some (Some y1) /\
+      slice_stat SMean cl IvRight (x2 + l, x2 + r) = Some (Some y2) /\
+      slice_stat SMean cl IvRight (x + l, x + r) = Some (Some (y1 + (x - x1) * (y2 - y1) / (x2 - x1))).
+Proof. exact interpolation_between_consecutive_knots. Qed.
+Print Assumptions linear_interpolation_reproduces_the_rolling_mean.
